@@ -5,6 +5,7 @@ import ckprop
 import genck
 import implc14
 import implck
+import directed
 
 DESCRIPTION = ("Lean: Props/C14.lean (any sequence of contract decorators interleaved with foreign functools.wraps decorators "
                "yields one checker carrying every contract, and every foreign layer still runs; with satisfied contracts the "
@@ -26,8 +27,15 @@ NEIGHBOURS = [{"from": "C19", "limit": 400, "why": "names only reserved when pos
               {"from": "C18", "limit": 400, "why": "foreign wrappers"}]
 
 
+run_directed = directed.run
+
+
 def cases(tier, rng):
     thorough = tier == "thorough"
+    for c in directed.sync_layer_over_coroutine_cases():
+        yield "directed-sync-layer-over-coroutine", c
+    for c in directed.keyword_named_self_cases():
+        yield "directed-keyword-named-self", c
     for n in range(1, (5 if thorough else 4) + 1):
         for decos in itertools.product(["require", "ensure", "snapshot", "foreign"], repeat=n):
             for a in (False, True):
